@@ -458,6 +458,18 @@ def main(argv):
             exprs.append(e)
             idx.append(i)
             imports.update(fam.imports)
+    # the modules the generated case files import must be up to date too (they need not be in the closure of Props/Cxx.v)
+    if exprs:
+        lock = open(os.path.join(COQ, ".lock"), "w")
+        fcntl.flock(lock, fcntl.LOCK_EX)
+        try:
+            seen = {}
+            for mod_ in sorted(set(imports) | {"Run.Harness"}):
+                if ensure_built(mod_.replace(".", "/") + ".v", log, seen) is None:
+                    harness_errors.append("cannot build %s: %s" % (mod_, "\n".join(log)[-800:]))
+        finally:
+            fcntl.flock(lock, fcntl.LOCK_UN)
+            lock.close()
     bad, cerr = coq_eval(work, exprs, imports) if exprs else ([], None)
     if cerr:
         harness_errors.append(cerr)
